@@ -100,8 +100,11 @@ type sbShape struct {
 	name string
 	args []sbArg
 	// value: an argument shape about the VALUE handed over, not about a canary: rendered for the vectors of the
-	// base variant only (no prelude, first interpreter of the process): what a script has bound or what the
-	// process did before is a dimension of the bindings, not of the data
+	// base variant (no prelude, first interpreter of the process) and the direct route only: what a script has
+	// bound, what the process did before and by which derivation the callee was reached are dimensions of the
+	// binding, not of the data (which Go code walks the value is decided by the name that is called; the walkers
+	// that the routes themselves apply -- eval, str, apply, macro expansion -- are names of the universe; the
+	// grammar-generated programs combine value shapes with every wrapper)
 	value bool
 }
 
@@ -150,6 +153,37 @@ const (
 func sbDeepText(open string) string {
 	return `(begin (def zvs "` + open + `") (for [(def zvi 0) (< zvi ` + strconv.Itoa(sbDeepDoublings) +
 		`) (set zvi (+ zvi 1))] (set zvs (concat zvs zvs))) zvs)`
+}
+
+// sbDeepOpen + x + "@" in a recorded text stands for x repeated 2^sbDeepDoublings times (texts nested without
+// bound as PROGRAM text: the script itself, not a string it builds); expanded, like sbPH, when the text is run.
+const sbDeepOpen = "@OPEN:"
+
+func sbExpand(l, dir string) string {
+	l = strings.ReplaceAll(l, sbPH, dir)
+	for {
+		i := strings.Index(l, sbDeepOpen)
+		if i < 0 {
+			return l
+		}
+		j := strings.IndexByte(l[i+len(sbDeepOpen):], '@')
+		if j < 0 {
+			return l
+		}
+		x := l[i+len(sbDeepOpen) : i+len(sbDeepOpen)+j]
+		l = l[:i] + strings.Repeat(x, 1<<sbDeepDoublings) + l[i+len(sbDeepOpen)+j+1:]
+	}
+}
+
+// sbDeepProgs: program texts nested 2^sbDeepDoublings levels, one per bracket and prefix of the reader.
+var sbDeepProgs = []string{
+	sbDeepOpen + "[@ 1 " + sbDeepOpen + "]@",
+	sbDeepOpen + "(@" + sbDeepOpen + ")@",
+	"(quote " + sbDeepOpen + "(@" + sbDeepOpen + ")@)",
+	sbDeepOpen + "{@ 1 " + sbDeepOpen + "}@",
+	sbDeepOpen + "'@zva",
+	sbDeepOpen + "^@zva",
+	"^" + sbDeepOpen + "~@zva",
 }
 
 func sbShapeByName(n string) *sbShape {
@@ -910,7 +944,7 @@ func sbWorker(args []string) int {
 			}
 			var out []lineRes
 			for _, l := range j.Lines {
-				k, s := sbEvalLine(env, strings.ReplaceAll(l, sbPH, *dir)+"\n")
+				k, s := sbEvalLine(env, sbExpand(l, *dir)+"\n")
 				out = append(out, lineRes{k, s})
 				switch k {
 				case "err":
@@ -1329,7 +1363,7 @@ func (r *sbRunner) runCmd(jobs []sbJob) map[int]sbObs {
 		var in bytes.Buffer
 		fmt.Fprintf(&in, "(println \"@@ZVB %d\")\n", j.K)
 		for _, l := range j.Lines {
-			in.WriteString(strings.ReplaceAll(l, sbPH, p.dir) + "\n")
+			in.WriteString(sbExpand(l, p.dir) + "\n")
 		}
 		fmt.Fprintf(&in, "(println \"@@ZVE %d\")\n(+ 40 2)\n(println \"@@ZVF %d\")\n", j.K, j.K)
 		p.in.Write(in.Bytes())
@@ -1454,7 +1488,7 @@ func (r *sbRunner) execute(vecs []sbVector, alone bool, w *ndWriter) {
 			name = v.Names[0]
 		}
 		for _, s := range sbShapes {
-			if s.value && (v.Pre != "" || v.Hist != "") {
+			if s.value && (v.Pre != "" || v.Hist != "" || v.Route != "direct") {
 				continue
 			}
 			lines := sbRender(name, v.Route, s.args, strconv.Itoa(vi))
@@ -1786,6 +1820,13 @@ func init() {
 			for ci, cfg := range sbCfgs {
 				if cfg == "full" || (cfg == "cmd" && zygoBin == "") {
 					continue
+				}
+				// texts nested without bound as program text
+				for i, text := range sbDeepProgs {
+					if c.mine(idx) {
+						vecs = append(vecs, sbVector{ID: fmt.Sprintf("deep-%s-%d", cfg, i), Kind: "prog", Cfg: cfg, Names: []string{"(text)"}, Route: "prog", Progs: [][]string{{text}}})
+					}
+					idx++
 				}
 				for i := 0; i < progs; i++ {
 					if !c.mine(idx) {
